@@ -1936,8 +1936,6 @@ func (d *decoderCborBytes) kSlice(f *decFnInfo, rv reflect.Value) {
 				rv, rvCanset = rvMakeSlice(rv, f.ti, rvlen, rvlen)
 				rvcap = rvlen
 				rvChanged = !rvCanset
-			} else {
-				halt.errorStr("cannot decode into non-settable slice")
 			}
 			if rvChanged && oldRvlenGtZero && rtelem0Mut {
 				rvCopySlice(rv, rv0, rtelem)
@@ -1989,20 +1987,21 @@ func (d *decoderCborBytes) kSlice(f *decFnInfo, rv reflect.Value) {
 		}
 
 		if j >= rvlen {
+			if !(rvCanset || rvChanged) {
+
+				d.arrayCannotExpand(rvlen, j+1)
+				d.swallow()
+				continue
+			}
 
 			if rvlen < rvcap {
 				rvlen = rvcap
 				if rvCanset {
 					rvSetSliceLen(rv, rvlen)
-				} else if rvChanged {
-					rv = rvSlice(rv, rvlen)
 				} else {
-					halt.onerror(errExpandSliceCannotChange)
+					rv = rvSlice(rv, rvlen)
 				}
 			} else {
-				if !(rvCanset || rvChanged) {
-					halt.onerror(errExpandSliceCannotChange)
-				}
 				rv, rvcap, rvCanset = rvGrowSlice(rv, f.ti, rvcap, 1)
 
 				rvlen = rvcap
@@ -5965,8 +5964,6 @@ func (d *decoderCborIO) kSlice(f *decFnInfo, rv reflect.Value) {
 				rv, rvCanset = rvMakeSlice(rv, f.ti, rvlen, rvlen)
 				rvcap = rvlen
 				rvChanged = !rvCanset
-			} else {
-				halt.errorStr("cannot decode into non-settable slice")
 			}
 			if rvChanged && oldRvlenGtZero && rtelem0Mut {
 				rvCopySlice(rv, rv0, rtelem)
@@ -6018,20 +6015,21 @@ func (d *decoderCborIO) kSlice(f *decFnInfo, rv reflect.Value) {
 		}
 
 		if j >= rvlen {
+			if !(rvCanset || rvChanged) {
+
+				d.arrayCannotExpand(rvlen, j+1)
+				d.swallow()
+				continue
+			}
 
 			if rvlen < rvcap {
 				rvlen = rvcap
 				if rvCanset {
 					rvSetSliceLen(rv, rvlen)
-				} else if rvChanged {
-					rv = rvSlice(rv, rvlen)
 				} else {
-					halt.onerror(errExpandSliceCannotChange)
+					rv = rvSlice(rv, rvlen)
 				}
 			} else {
-				if !(rvCanset || rvChanged) {
-					halt.onerror(errExpandSliceCannotChange)
-				}
 				rv, rvcap, rvCanset = rvGrowSlice(rv, f.ti, rvcap, 1)
 
 				rvlen = rvcap
